@@ -4,13 +4,13 @@ import (
 	"encoding/binary"
 	"encoding/json"
 	"fmt"
+	"reflect"
 	"sort"
 	"strings"
 
 	gogotypes "github.com/gogo/protobuf/types"
-	tmbytes "github.com/tendermint/tendermint/libs/bytes"
 
-	"github.com/irismod/service/types"
+	sdk "github.com/cosmos/cosmos-sdk/types"
 )
 
 // C18 (history part) — every issued request can be found again from its ID: the ID splits to
@@ -232,8 +232,8 @@ func (o *c18) liveScans(r *StepRec) {
 	sort.Slice(hs, func(i, j int) bool { return hs[i] < hs[j] })
 	for _, h := range hs {
 		var gotE, gotN []string
-		k.IterateExpiredRequestBatch(ctx, h, func(id tmbytes.HexBytes, _ types.RequestContext) { gotE = append(gotE, hx(id)) })
-		k.IterateNewRequestBatch(ctx, h, func(id tmbytes.HexBytes, _ types.RequestContext) { gotN = append(gotN, hx(id)) })
+		gotE = callQueueIterator(k.IterateExpiredRequestBatch, ctx, h)
+		gotN = callQueueIterator(k.IterateNewRequestBatch, ctx, h)
 		if set(gotE) != set(wantExp[h]) {
 			o.fail("c18:scan:expiry_queue", "batches expiring at height %d: the module's scan lists %v, the store holds %v", h, shortAll(gotE), shortAll(wantExp[h]))
 		}
@@ -289,4 +289,24 @@ func (o *c18) liveScans(r *StepRec) {
 			o.fail("c18:scan:pending_of_batch", "pending requests of context %s batch %d: the module's scan lists %v, the store holds %v", short(cid), rc.BatchCounter, shortAll(got), shortAll(want))
 		}
 	}
+}
+
+// callQueueIterator calls one of the keeper's queue iterators (ctx, height, callback) and collects the context
+// ids it visits. The callback is built by reflection from the parameter type the iterator declares, so that a
+// callback with or without a "stop" result - the keeper uses both conventions - is served alike and a change
+// of that convention does not stop the harness from building.
+func callQueueIterator(fn interface{}, ctx sdk.Context, h int64) []string {
+	fv := reflect.ValueOf(fn)
+	cbType := fv.Type().In(2)
+	var got []string
+	cb := reflect.MakeFunc(cbType, func(args []reflect.Value) []reflect.Value {
+		got = append(got, hx(args[0].Bytes()))
+		outs := make([]reflect.Value, cbType.NumOut())
+		for i := range outs {
+			outs[i] = reflect.Zero(cbType.Out(i))
+		}
+		return outs
+	})
+	fv.Call([]reflect.Value{reflect.ValueOf(ctx), reflect.ValueOf(h), cb})
+	return got
 }
